@@ -72,6 +72,7 @@ def shards(tier):
     nk = len(kinds(tier))
     out = [("lists", n, k0, si) for n in (1, 2, 3) for k0 in range(nk) for si in range(len(SETTINGS))]
     out += [("empty", 0, 0, si) for si in range(len(SETTINGS))]
+    out.append(("unstranded",))
     ne = len(exon_sets(tier))
     step = 8 if tier == "quick" else 64
     out += [("introns", i, min(i + step, ne)) for i in range(0, ne, step)]
@@ -147,7 +148,9 @@ def body_lists(ch, ctx):
     feats, objs = [], []
     for i, ((s, e), seqid, strand) in enumerate(chosen):
         attrs = {"ID": ["x%d" % i] if i != 1 else ["x1", "x1alt"], "Parent": ["t1"], "num": [str(10 - i)], "tag": ["v%d" % (i % 2)],
-                 "lvl": ["2", "10"]}
+                 "lvl": ["2", "10"],
+                 # signed numbers and exponent notation are numbers too
+                 "off": ["-1", "-10"] if i % 2 == 0 else ["+5", "-1"], "w": ["1e3", "200"]}
         if i % 2 == 0:
             attrs["only_here"] = ["zeta", "alpha", "zeta", "9", "10"]       # on every other feature only
         if same_attrs:
@@ -286,9 +289,31 @@ def body_empty(ch, ctx):
     ctx.check(got == [], "interfeatures-yields-for-empty-input", dict(form=form), got=[str(g) for g in got])
 
 
+def body_unstranded(ch, ctx):
+    """A transcript without strand: the gaps and the two-base sites are where they are for any transcript; with no strand to go
+    by, a site cannot be labelled five- or three-prime 'according to the transcript strand'."""
+    strand = ch.choose("strand", (".", "?"))
+    sel, kw = ch.choose("selection", (("grandparent", {}), ("parent", dict(grandparent_featuretype=None, parent_featuretype="mRNA"))))
+    lines = ["c1\ts\tgene\t1\t40\t.\t%s\t.\tID=g1" % strand, "c1\ts\tmRNA\t1\t40\t.\t%s\t.\tID=t1;Parent=g1" % strand]
+    lines += ["c1\ts\texon\t%d\t%d\t.\t%s\t.\tID=e%d;Parent=t1" % (a, b, strand, a) for a, b in ((1, 5), (10, 20), (31, 40))]
+    db = gffutils.create_db(dbutil.write_text(ctx.fresh_dir(), "u.gff", "\n".join(lines) + "\n"), ":memory:", verbose=False)
+    ctx.sample(lambda: dict(file=lines, selection=sel))
+    ctx.nontrivial()
+    ctx.outcome(("unstranded", strand, sel))
+    sig = dict(strand=strand, selection=sel, unstranded=True)
+    introns = sorted((f.start, f.end, f.strand) for f in db.create_introns(**kw))
+    ctx.check(introns == [(6, 9, strand), (21, 30, strand)], "introns-differ", sig, file=lines, got=introns)
+    sites = sorted((f.start, f.end, f.featuretype) for f in db.create_splice_sites(**kw))
+    ctx.check([x[:2] for x in sites] == [(6, 7), (8, 9), (21, 22), (29, 30)], "splice-sites-differ", sig, file=lines, got=sites)
+    oriented = [x for x in sites if x[2] in ("five_prime_cis_splice_site", "three_prime_cis_splice_site")]
+    ctx.check(not oriented, "unstranded-transcript-got-strand-specific-site-labels", sig, file=lines, got=sites)
+
+
 def body(ch, ctx):
     if ctx.shard[0] == "empty":
         return body_empty(ch, ctx)
+    if ctx.shard[0] == "unstranded":
+        return body_unstranded(ch, ctx)
     if ctx.shard[0] == "lists":
         body_lists(ch, ctx)
     else:
